@@ -133,9 +133,14 @@ func genSpec(cfg Config) *rapid.Generator[spec] {
 				s.Sec = 4102444800 + 12345
 			case 2:
 				s.Sec = 1
+			case 3:
+				s.Sec = 0 // within the first second of the epoch (a zero Sec and Nsec would mean "unset" to fsx)
 			}
 		}
 		s.Nsec = rapid.SampledFrom(nsecs).Draw(t, "nsec")
+		if s.Sec == 0 && s.Nsec == 0 {
+			s.Nsec = 400000000
+		}
 		return s
 	})
 }
